@@ -44,6 +44,7 @@ type World struct {
 	effects      map[*ssa.Function]*Effects
 	effectRounds int
 	errRes       *errResolver
+	addrTaken map[*ssa.Function]bool
 	baseMem      map[string]AV
 }
 
@@ -310,6 +311,14 @@ func (w *World) refineTableCalls(g *callgraph.Graph) {
 					allowed[e.Site] = fs
 				}
 			}
+			// a call through a function-typed parameter of an unexported
+			// function whose address is never taken: the callees are the
+			// functions its (static) callers pass
+			if prm, ok := c.Value.(*ssa.Parameter); ok {
+				if fs := w.paramFuncs(g, fn, prm, 0); fs != nil {
+					allowed[e.Site] = fs
+				}
+			}
 		}
 		if len(allowed) == 0 {
 			continue
@@ -332,6 +341,101 @@ func (w *World) refineTableCalls(g *callgraph.Graph) {
 	}
 }
 
+// paramFuncs: the functions that can be bound to the function-typed parameter
+// prm of fn, when fn is unexported, never used as a value, and every call of it
+// is a static call passing a function constant (or, recursively, such a
+// parameter of its own). nil: cannot tell.
+func (w *World) paramFuncs(g *callgraph.Graph, fn *ssa.Function, prm *ssa.Parameter, depth int) map[*ssa.Function]bool {
+	if depth > 3 || fn.Object() == nil || fn.Object().Exported() || w.addressTaken()[fn] {
+		return nil
+	}
+	idx := -1
+	for i, p := range fn.Params {
+		if p == prm {
+			idx = i
+		}
+	}
+	node := g.Nodes[fn]
+	if idx < 0 || node == nil || len(node.In) == 0 {
+		return nil
+	}
+	out := map[*ssa.Function]bool{}
+	for _, in := range node.In {
+		if in.Site == nil {
+			return nil
+		}
+		cc := in.Site.Common()
+		if cc.StaticCallee() != fn {
+			continue // a CHA edge from some dynamic call: fn's address is not taken, so it cannot be real
+		}
+		args := cc.Args
+		if idx >= len(args) {
+			return nil
+		}
+		switch a := args[idx].(type) {
+		case *ssa.Function:
+			out[a] = true
+		case *ssa.MakeClosure:
+			if f, ok := a.Fn.(*ssa.Function); ok {
+				out[f] = true
+			} else {
+				return nil
+			}
+		case *ssa.Parameter:
+			sub := w.paramFuncs(g, in.Caller.Func, a, depth+1)
+			if sub == nil {
+				return nil
+			}
+			for f := range sub {
+				out[f] = true
+			}
+		default:
+			return nil
+		}
+	}
+	if len(out) == 0 {
+		return nil
+	}
+	return out
+}
+
+// addressTaken: functions used as values (stored, passed, returned, bound in a
+// closure) anywhere in the loaded program, as opposed to only being called.
+func (w *World) addressTaken() map[*ssa.Function]bool {
+	if w.addrTaken != nil {
+		return w.addrTaken
+	}
+	w.addrTaken = map[*ssa.Function]bool{}
+	for fn := range w.AllFuncs {
+		for _, b := range fn.Blocks {
+			for _, in := range b.Instrs {
+				var callee ssa.Value
+				if c, ok := in.(ssa.CallInstruction); ok {
+					callee = c.Common().Value
+				}
+				for _, op := range in.Operands(nil) {
+					if f, ok := (*op).(*ssa.Function); ok {
+						if callee != nil && *op == callee {
+							// in call position — but the same function may also be an argument
+							n := 0
+							for _, op2 := range in.Operands(nil) {
+								if *op2 == ssa.Value(f) {
+									n++
+								}
+							}
+							if n == 1 {
+								continue
+							}
+						}
+						w.addrTaken[f] = true
+					}
+				}
+			}
+		}
+	}
+	return w.addrTaken
+}
+
 // tableOrigin: v is loaded (possibly through a local copy of an element) from
 // memory rooted at one package-level variable.
 func tableOrigin(v ssa.Value, depth int) *ssa.Global {
@@ -350,6 +454,12 @@ func tableOrigin(v ssa.Value, depth int) *ssa.Global {
 			return addr(x.X, d+1)
 		case *ssa.IndexAddr:
 			return addr(x.X, d+1)
+		case *ssa.UnOp:
+			// element of a slice held in a package-level variable
+			if g, ok := x.X.(*ssa.Global); ok && x.Op == token.MUL {
+				return g
+			}
+			return nil
 		case *ssa.Alloc:
 			var g *ssa.Global
 			for _, ref := range *x.Referrers() {
@@ -390,6 +500,19 @@ func (w *World) tableFuncs(g *ssa.Global) map[*ssa.Function]bool {
 		return nil
 	}
 	out := map[*ssa.Function]bool{}
+	// backing arrays of slice literals stored into g
+	backing := map[ssa.Value]bool{}
+	for _, b := range init.Blocks {
+		for _, in := range b.Instrs {
+			if st, ok := in.(*ssa.Store); ok && st.Addr == ssa.Value(g) {
+				if sl, ok := st.Val.(*ssa.Slice); ok {
+					if al, ok := sl.X.(*ssa.Alloc); ok {
+						backing[al] = true
+					}
+				}
+			}
+		}
+	}
 	for _, b := range init.Blocks {
 		for _, in := range b.Instrs {
 			st, ok := in.(*ssa.Store)
@@ -404,7 +527,7 @@ func (w *World) tableFuncs(g *ssa.Global) map[*ssa.Function]bool {
 				// a function stored through a non-constant address: cannot attribute
 				return nil
 			}
-			if root != ssa.Value(g) {
+			if root != ssa.Value(g) && !backing[root] {
 				continue
 			}
 			f, isFn := st.Val.(*ssa.Function)
